@@ -44,4 +44,14 @@ TEXT.update({
   note="Trusted: percent-decoding of the fragment by net/url (modelled, compared); strconv.Atoi vs the model's digit parser (compared on signed/padded/overflowing inputs by the ptr family). The theorem is about dereferenceJSONPointer on the resource root; that the resolver applies it to the right root is part of C03.",
  ),
 })
+TEXT.update({
+ "C05": dict(
+  level="PARTIAL. The codec is a Coq model generated from the field table that the source-facts obligations re-check against /repo's Schema struct and wrapper structs on every run; proved about it: boolean forms round-trip, the properties order formula, every map-typed output is a function of the key/value set. Not proved: the general round-trip theorem. Both directions are decided per generated case by (a) model = package on outcome classes and marshalled documents and (b) the round-trip laws evaluated on the package's own outputs.",
+  note="Trusted: encoding/json's struct rules as transcribed (omitempty, exact-name members, null handling, last duplicate wins), number text layer. Without a theorem the for-all claim rests on the sample; stated as partial in the evidence.",
+ ),
+ "C18": dict(
+  level="Theorems: the evaluation step of a schema object is identical for any two schema objects that agree on the asserting fields (so title, description, $comment, default, examples, deprecated, readOnly, writeOnly, format, content*, $defs/definitions, unknown keywords are never read), and a member whose name is not exactly a keyword never touches a field nor fails Unmarshal. The whole-document congruence (decorated document resolves to an environment that validates identically) is decided by the non-interference law on the package and by the correspondence of both documents.",
+  note="Trusted as C01. Known finding O-16 (legacy definitions next to $defs is refused) is outside the generated decorations.",
+ ),
+})
 PENDING = {}
